@@ -342,6 +342,19 @@ class NamedTuple:
         return self.values[self.typ.fields.index(name)]
 
 
+class Anything:
+    """Result of a stubbed callee whose value is irrelevant to the obligations
+    of the task (losses returned by a stubbed update routine, logged stats):
+    unpacks to any arity, attribute access / indexing / calls give Anything.
+    Using it in arithmetic or a branch is an error (Unsupported)."""
+
+    def __init__(self, tag="any"):
+        self.tag = tag
+
+    def __repr__(self):
+        return f"<Anything {self.tag}>"
+
+
 class Opaque:
     """Opaque handle (graphdef, dtype, path, exception class, ...)."""
 
@@ -505,6 +518,8 @@ def py_floordiv(a: z3.ArithRef, b: z3.ArithRef):
 def binop(op, a, b):
     from . import tensor as T
 
+    if isinstance(a, Anything) or isinstance(b, Anything):
+        return Anything("arith")
     if isinstance(a, T.Tensor) or isinstance(b, T.Tensor):
         return T.tensor_binop(op, a, b)
     # concrete fast path
@@ -528,6 +543,10 @@ def binop(op, a, b):
                 return mk(za / zb if op == "//" else za % zb, gd)
             q, r = py_floordiv(za, zb)
             return mk(q if op == "//" else r, gd)
+        if REAL_DIVMOD_HOOK["fn"] is not None:
+            # real (float) floor division / modulo: library model installed by pyvc/lib/ext_ensemble.py
+            q, r = REAL_DIVMOD_HOOK["fn"](as_real(a), as_real(b))
+            return mk(q if op == "//" else r, gd)
         raise Unsupported("floor division / modulo on reals")
     if op == "**":
         if isinstance(b, int) and not isinstance(b, bool) and 0 <= b <= 4:
@@ -547,6 +566,7 @@ def binop(op, a, b):
 
 
 POW_HOOK = {"st": None}
+REAL_DIVMOD_HOOK = {"fn": None}
 
 
 def pow_term(a, b, gd=frozenset()):
@@ -611,11 +631,15 @@ def _concrete_binop(op, a, b):
 def unop(op, a):
     from . import tensor as T
 
+    if isinstance(a, Anything):
+        return Anything("arith")
     if isinstance(a, T.Tensor):
         return T.tensor_unop(op, a)
     if op == "-":
         if isinstance(a, Sym):
             return mk(-as_num(a), a.gdeps)
+        if isinstance(a, Opaque) and a.tag in ("inf", "-inf"):
+            return Opaque("-inf" if a.tag == "inf" else "inf")
         if isinstance(a, float):
             a = frac_of(a)
         return -a
@@ -641,11 +665,15 @@ def _concrete_truth(a):
 def compare(op, a, b):
     from . import tensor as T
 
+    if (isinstance(a, Anything) or isinstance(b, Anything)) and op not in ("is", "is not"):
+        return Anything("cmp")
     if isinstance(a, T.Tensor) or isinstance(b, T.Tensor):
         return T.tensor_compare(op, a, b)
     if op in ("is", "is not"):
         r = identical(a, b)
         return r if op == "is" else (not r)
+    if inf_sign(a) or inf_sign(b):
+        return _compare_inf(op, a, b)
     sa = isinstance(a, (Sym, z3.ExprRef))
     sb = isinstance(b, (Sym, z3.ExprRef))
     if not sa and not sb:
@@ -679,6 +707,33 @@ def compare(op, a, b):
         "!=": lambda: za != zb,
     }[op]()
     return mk(z)
+
+
+def inf_sign(x):
+    """+1 / -1 for the IEEE infinities (Opaque('inf') / Opaque('-inf')), else 0"""
+    if isinstance(x, Opaque):
+        return 1 if x.tag == "inf" else (-1 if x.tag == "-inf" else 0)
+    return 0
+
+
+def _compare_inf(op, a, b):
+    """ordering against +-inf: every Int/Real term denotes a FINITE number
+    (reals for floats), so -inf < x < +inf holds for all of them (IEEE 754
+    total order on non-NaN values); inf == inf."""
+    import operator
+
+    for x in (a, b):
+        if inf_sign(x):
+            continue
+        ok = isinstance(x, (int, Fraction, float)) and not isinstance(x, bool)
+        if isinstance(x, (Sym, z3.ExprRef)):
+            ok = to_z3(x).sort() in (INT, REAL)
+        if not ok:
+            if op in ("==", "!="):
+                return op == "!="
+            raise Unsupported(f"ordering of {type(x).__name__} against an infinity")
+    fn = {"<": operator.lt, "<=": operator.le, ">": operator.gt, ">=": operator.ge, "==": operator.eq, "!=": operator.ne}[op]
+    return fn(inf_sign(a), inf_sign(b))
 
 
 def identical(a, b):
